@@ -106,10 +106,20 @@ def table(ld, kind):
     return list(zip(f["tag"].to_list(), [int(i) for i in ids], f["v"].to_list()))
 
 
+LOAD_ERRORS = []
+
+
 def observe(ld, kind, lookup, snapshots):
     rows = table(ld, kind)
     dec = lambda arr: [lookup.get(int(round(float(x))), -7) for x in np.asarray(arr).ravel()]
     loaded = dec(ld.asnumpy()) if len(rows) else []
+    if len(rows):
+        # load() with an index list returns the sub-volumes of exactly those molecules, in the order (and multiplicity) requested
+        n_ = len(rows)
+        for idx in ([n_ - 1 - j for j in range(n_)], [0, n_ - 1, 0], [-1, 0] if n_ > 1 else [0]):
+            got = dec(ld.load(idx))
+            if got != [loaded[j] for j in idx]:
+                LOAD_ERRORS.append({"indices": idx, "got": got, "want": [loaded[j] for j in idx]})
     applied = dec(ld.apply(np.max).to_numpy()) if len(rows) else []
     gk, gt, gl = [], [], []
     if len(rows):
@@ -177,10 +187,15 @@ def corr_histories(ck, rng):
     maxlen = 6 if ck.tier == "quick" else 25
     cases = []
     classes = {"batch": 0, "single": 0}
+    LOAD_ERRORS.clear()
     for i in range(n):
         kind = "batch" if i % 4 else "single"
         classes[kind] += 1
         cases.append(run_history(rng, kind, maxlen))
+    ck.oracle_count("load_index_list", len(cases), len(cases))
+    for e in LOAD_ERRORS[:3]:
+        ck.violation(what=f"loader.load({e['indices']}) returned the sub-volumes of molecules {e['got']} instead of {e['want']}", inp=e,
+                     key={"site": "load-index-list"}, oracle="load_index_list")
     ck.corr_run("loader_histories", ["Acryo.Common.Table", "AcryoGen.Anchors_C03", "Acryo.C03.Model"], cases, shard=12 if ck.tier == "quick" else 40,
                 observable=True, describe=lambda c: {"site": "history", "kind": c["kind"], "ops": [h[0] for h in c["history"]][:6]},
                 classes=classes)
@@ -255,7 +270,30 @@ def corr_registry(ck, rng):
         terms, py = [], []
         tag = 10
         for _ in range(int(rng.integers(2, 7 if ck.tier == "quick" else 12))):
-            k = int(rng.integers(0, 3))
+            k = int(rng.integers(0, 4))
+            if k == 3:
+                # add a whole batch loader (from_loaders / add_loader): its tomograms are added one by one, in the order in which its
+                # molecule table first mentions them, each under a fresh automatic id; tomograms without molecules add nothing
+                b2 = BatchLoader(order=0, scale=1.0, output_shape=(1, 1, 1))
+                sub = []
+                for j_ in range(int(rng.integers(2, 4))):
+                    tag += 1
+                    n2 = int(rng.integers(0 if j_ == 0 else 1, 3))
+                    b2.add_tomogram(np.full((3, 3, 3), float(tag), dtype=np.float32), Molecules(np.ones((n2, 3))), image_id=[5, 2, 9][j_])
+                    sub.append(([5, 2, 9][j_], tag, n2))
+                if len(b2.molecules):
+                    perm = [int(x) for x in rng.permutation(len(b2.molecules))]
+                    b2 = b2.replace(molecules=b2.molecules.subset(perm))
+                    order_ = list(dict.fromkeys(int(i_) for i_ in b2.molecules.features["image-id"].to_list()))
+                    if rng.random() < 0.5:
+                        b.add_loader(b2)
+                    else:
+                        b = BatchLoader.from_loaders([b, b2], order=0, scale=1.0, output_shape=(1, 1, 1)) if False else b.add_loader(b2)
+                    bytag = {iid: (tg, n2) for iid, tg, n2 in sub}
+                    for iid in order_:
+                        terms.append(f"OAdd None {zl(bytag[iid][0])} {natl(bytag[iid][1])}")
+                    py.append(["add_loader", [[iid, bytag[iid][0], bytag[iid][1]] for iid in order_]]); nops["add_loader"] = nops.get("add_loader", 0) + 1
+                continue
             if k < 2 or len(b.molecules) == 0:
                 tag += 1
                 n = int(rng.integers(1, 4))
